@@ -299,10 +299,9 @@ Definition empty_bytes (o : option (list N)) : bool := is_none (truthy o).
 Definition wf_tensor (t : TensorP) : bool :=
   wf_dict (t_meta t) &&
   if dflt 0 (t_loc t) =? 1 then
-    wf_dict (t_ext t)
-    && forallb (fun kv => str_eqb (fst kv) k_location || str_eqb (fst kv) k_offset || str_eqb (fst kv) k_length) (t_ext t)
+    wf_dict (t_ext t)                        (* unique keys: entries of any other key are kept as they are *)
     && mem k_location (t_ext t)
-    && forallb (fun kv => str_eqb (fst kv) k_location || canonical_int (snd kv)) (t_ext t)
+    && forallb (fun kv => negb (str_eqb (fst kv) k_offset || str_eqb (fst kv) k_length) || canonical_int (snd kv)) (t_ext t)
     && valid_dtype (dflt 0 (t_dtype t))
     && negb (nonempty (t_strs t)) && empty_bytes (t_raw t) && negb (nonempty (t_other t))
   else if dflt 0 (t_dtype t) =? STRING_DT then
